@@ -24,11 +24,16 @@ func stressCase(r *hxlib.Run, i int) hxlib.Case {
 	return hxlib.Case{Lines: []string{fmt.Sprintf("stress %d %d %d", r.Rng.Int63n(1<<30), i%3, n)}, Kind: "stress", NoModel: true, NonTrivial: true}
 }
 
-func runStress(seed int64, mode, nsets int) string {
+func runStress(seed int64, mode, nsets int, file string) string {
 	const K = 3
 	const G = 4
 	config.VerifSetSink(nil)
-	config.VerifReset("")
+	if seed%2 == 0 {
+		// with persistence: every successful SetConfigOption also saves (concurrent SaveConfig calls)
+		config.VerifReset(file)
+	} else {
+		config.VerifReset("")
+	}
 	keys := make([]string, K)
 	for k := 0; k < K; k++ {
 		keys[k] = "s" + strconv.Itoa(k)
